@@ -163,6 +163,20 @@ func (x *pextract) block(stmts []ast.Stmt) []*pev {
 					continue
 				}
 			}
+			// _, isLiteral := n.Child.(*T): a type test of a child; a bool bound to it guards parentheses added for a
+			// lexical reason (`(1).x`), which are transparent to the token comparison like precedence parentheses
+			if len(s.Lhs) == 2 && len(s.Rhs) == 1 {
+				if ta, ok := s.Rhs[0].(*ast.TypeAssertExpr); ok && ta.Type != nil {
+					if id, ok := s.Lhs[1].(*ast.Ident); ok {
+						if fp, ok := x.fieldPath(ta.X); ok && fp != "" {
+							if first, ok := s.Lhs[0].(*ast.Ident); ok && first.Name == "_" {
+								x.locals[x.info.ObjectOf(id)] = "paren:" + fp
+								continue
+							}
+						}
+					}
+				}
+			}
 			out = append(out, &pev{kind: evOther, text: "assignment", pos: st.Pos()})
 		case *ast.IfStmt:
 			cond, neg := x.cond(s.Cond)
